@@ -25,7 +25,9 @@ var streamHdr = `<stream:stream id="123" version="1.0" xmlns="` + contentNS + `"
 // including the element's end tag, and whether the sequence ended cleanly
 // (true) or with a decoder/stream error (false).
 func wireElement(b []byte) (toks []xml.Token, clean bool) {
-	d := xml.NewDecoder(io.MultiReader(strings.NewReader(streamHdr), bytes.NewReader(b)))
+	// an element that is still open when the bytes end is cut by the peer's
+	// closing stream tag (the harness sends it right after such an element)
+	d := xml.NewDecoder(io.MultiReader(strings.NewReader(streamHdr), bytes.NewReader(b), strings.NewReader("</stream:stream>")))
 	if _, err := d.Token(); err != nil {
 		return nil, false
 	}
